@@ -109,7 +109,7 @@ func (c *Collector) Write(dir string, seed uint64, tier string) error {
 		}
 		name := fmt.Sprintf("cases_%03d", i)
 		var sb strings.Builder
-		sb.WriteString("From Coq Require Import String ZArith List.\nFrom GoCose Require Import Bytes Cbor Res GoVal Obs Run.\nImport ListNotations.\nOpen Scope string_scope.\nOpen Scope Z_scope.\n")
+		sb.WriteString("From Coq Require Import String ZArith List.\nFrom GoCose Require Import Bytes Cbor Res GoVal Obs Headers Dec Msg HashEnv Key SigVer Run.\nImport ListNotations.\nOpen Scope string_scope.\nOpen Scope Z_scope.\n")
 		sb.WriteString("Definition cases : list (op * ot) := [\n")
 		for j, cs := range c.Cases[lo:hi] {
 			if j > 0 {
